@@ -10,6 +10,10 @@ class Unsupported(AnalysisError):
     pass
 
 
+class Obj(dict):
+    """a record standing for an object of the analysed program: attribute name -> value (handed to the evaluator by a rule)"""
+
+
 def ev(node, env):
     if isinstance(node, (ast.Subscript, ast.Call)):
         # bindings may be given by source text:  'data[1]', 'len(self.additions)'
@@ -44,6 +48,11 @@ def ev(node, env):
             r = env['__cls__'].find_attr(node.attr)
             if r is not None:
                 return ev(r[1], {'__funcs__': env.get('__funcs__')} if env.get('__funcs__') else {})
+        if isinstance(node.value, ast.Name) and isinstance(env.get(node.value.id), Obj):
+            # an object of the analysed program modelled by the rule as a record of attribute values
+            o = env[node.value.id]
+            if node.attr in o:
+                return o[node.attr]
         raise Unsupported('free attribute %s' % key)
     if isinstance(node, ast.UnaryOp):
         v = ev(node.operand, env)
@@ -167,17 +176,23 @@ def ev(node, env):
         args = [ev(a, env) for a in node.args]
         if node.func.id == 'divmod' and len(args) == 2:
             return divmod(*args)
+        if node.func.id in ('max', 'min') and len(args) == 1 and isinstance(args[0], (list, tuple, set, frozenset, dict)):
+            if len(args[0]) == 0:
+                raise Raised()
+            return (max if node.func.id == 'max' else min)(args[0])
         if node.func.id in ('max', 'min') and args:
             return (max if node.func.id == 'max' else min)(args)
         if node.func.id == 'abs' and len(args) == 1:
             return abs(args[0])
         if node.func.id == 'int' and len(args) == 1:
             return int(args[0])
-        if node.func.id == 'len' and len(args) == 1 and isinstance(args[0], (list, tuple, str, bytes, bytearray)):
+        if node.func.id in ('max', 'min') and len(args) == 1 and isinstance(args[0], (list, tuple, set, frozenset, dict)) and len(args[0]) > 0:
+            return (max if node.func.id == 'max' else min)(args[0])
+        if node.func.id == 'len' and len(args) == 1 and isinstance(args[0], (list, tuple, str, bytes, bytearray, set, frozenset, dict)):
             return len(args[0])
         if node.func.id == 'bool' and len(args) == 1:
             return bool(args[0])
-        if node.func.id in ('sorted', 'list', 'tuple', 'reversed') and len(args) == 1 and not node.keywords and isinstance(args[0], (list, tuple, dict, set, range)):
+        if node.func.id in ('sorted', 'list', 'tuple', 'reversed') and len(args) == 1 and not node.keywords and isinstance(args[0], (list, tuple, dict, set, frozenset, range)):
             # containers of the interpreter's own values (class-/module-level literal tables)
             items = list(args[0])
             if node.func.id == 'sorted':
@@ -265,6 +280,51 @@ def ev(node, env):
             st = ev(node.slice.step, env) if node.slice.step is not None else None
             if all(x is None or isinstance(x, int) for x in (lo, hi, st)):
                 return b[lo:hi:st]
+    if isinstance(node, (ast.ListComp, ast.SetComp, ast.GeneratorExp, ast.DictComp)):
+        # comprehensions over the interpreter's own containers (bounded)
+        out_ = []
+
+        def gen(k, env_):
+            if k == len(node.generators):
+                if isinstance(node, ast.DictComp):
+                    out_.append((ev(node.key, env_), ev(node.value, env_)))
+                else:
+                    out_.append(ev(node.elt, env_))
+                return
+            g_ = node.generators[k]
+            it_ = ev(g_.iter, env_)
+            if isinstance(it_, dict):
+                it_ = list(it_)
+            if not isinstance(it_, (list, tuple, set, frozenset, range, bytes, bytearray)):
+                raise Unsupported('comprehension over %s' % type(it_).__name__)
+            if len(it_) > 10000:
+                raise Unsupported('comprehension too long')
+            for item in it_:
+                e2 = dict(env_)
+                if isinstance(g_.target, ast.Name):
+                    e2[g_.target.id] = item
+                elif isinstance(g_.target, (ast.Tuple, ast.List)) and all(isinstance(x, ast.Name) for x in g_.target.elts) and len(g_.target.elts) == len(item):
+                    for x, v_ in zip(g_.target.elts, item):
+                        e2[x.id] = v_
+                else:
+                    raise Unsupported('comprehension target')
+                if all(ev(c_, e2) for c_ in g_.ifs):
+                    gen(k + 1, e2)
+        gen(0, env)
+        if isinstance(node, ast.SetComp):
+            return set(out_)
+        if isinstance(node, ast.DictComp):
+            return dict(out_)
+        return out_
+    if isinstance(node, ast.Call) and isinstance(node.func, ast.Name) and node.func.id in ('set', 'frozenset', 'sum', 'any', 'all') and len(node.args) == 1 and not node.keywords:
+        a0 = ev(node.args[0], env)
+        if isinstance(a0, (list, tuple, set, frozenset, dict)):
+            if node.func.id in ('set', 'frozenset'):
+                return set(a0)
+            if node.func.id == 'sum' and all(isinstance(x, int) for x in a0):
+                return sum(a0)
+            if node.func.id in ('any', 'all'):
+                return (any if node.func.id == 'any' else all)(a0)
     if isinstance(node, ast.Tuple):
         return tuple(ev(e, env) for e in node.elts)
     if isinstance(node, ast.Subscript) and not isinstance(node.slice, ast.Slice):
